@@ -34,7 +34,7 @@ def run(d):
             return d, None, 'DOES NOT BUILD: ' + b.stderr.strip()[:300]
         out = ''
         for p in (['all'] if props == 'all' else props.split()):
-            r = subprocess.run(['/verif/bin/nxcheck', 'check', '-property', p, '-repo', repo, '-verif', verif], capture_output=True, text=True)
+            r = subprocess.run([os.environ.get('NXBIN','/verif/bin/nxcheck'), 'check', '-property', p, '-repo', repo, '-verif', verif], capture_output=True, text=True)
             out += r.stdout + r.stderr
         det = sorted(set(re.findall(r'^VIOLATION property=(C\d+)', out, re.M)))
         lines = [l for l in out.splitlines() if l.startswith('VIOLATION')]
